@@ -43,6 +43,10 @@ SPECS = [
          assign="add_info['value']", nth=0,
          env={"cur_threshold": "t", "objective": "f"},
          vars=["t", "f"], nat=[], locals_opaque=["cur_threshold", "objective"]),
+    dict(name="batchValue", file="ribs/archives/_transforms.py", func="batch_entries_with_threshold",
+         assign="add_info['value']", nth=0,
+         env={"cur_threshold": "t", "new_data['objective']": "f"},
+         vars=["t", "f"], nat=[], locals_opaque=["cur_threshold"]),
     dict(name="qdScore", file="ribs/archives/_archive_base.py", func="ArchiveBase._stats_update",
          assign="new_qd_score", nth=0,
          env={"self._objective_sum": "s", "len(self)": "n", "self._qd_score_offset": "off"},
